@@ -96,7 +96,7 @@ func (v *failAt) VisitMethod(e pgs.Method) (pgs.Visitor, error)       { return v
 func accessorsOf(kind string) []string {
 	switch kind {
 	case "file":
-		return []string{"imports", "transitive", "dependents", "unused", "messages", "allMessages", "enums", "allEnums", "services", "exts", "walk", "walkfail", "syntax", "desc"}
+		return []string{"imports", "transitive", "dependents", "unused", "messages", "allMessages", "enums", "allEnums", "services", "exts", "walk", "walkfail", "syntax", "desc", "sci", "syntaxSci", "packageSci"}
 	case "msg":
 		return []string{"messages", "mapEntries", "fields", "oneofs", "enums", "exts", "allMessages", "allEnums", "nonOneof", "oneofFields", "synthFields", "realOneofs", "imports", "deps", "dpts", "walk", "walkfail", "desc"}
 	case "enum":
@@ -139,6 +139,34 @@ func callAccessor(r *astRun, e pgs.Entity, acc string) []ref {
 			return []ref{{0, []int{1}}}
 		}
 		return []ref{{0, []int{0}}}
+	case "sci", "syntaxSci", "packageSci":
+		// the location the file reports for itself / its syntax statement / its package statement is
+		// the one the request designates ([1]) or not ([0]) - whatever was asked before
+		if f, ok := e.(pgs.File); ok {
+			fi := r.refOf(f).File
+			want := func(path int) int {
+				t := -1
+				for _, l := range r.w.Files[fi].Locs {
+					if len(l.Path) == 1 && l.Path[0] == path {
+						t = l.Tag
+					}
+				}
+				return t
+			}
+			var got, exp int
+			switch acc {
+			case "sci":
+				got, exp = tagOf(f.SourceCodeInfo()), want(12)
+			case "syntaxSci":
+				got, exp = tagOf(f.SyntaxSourceCodeInfo()), want(12)
+			default:
+				got, exp = tagOf(f.PackageSourceCodeInfo()), want(2)
+			}
+			if got == exp {
+				return []ref{{0, []int{1}}}
+			}
+			return []ref{{0, []int{0}}}
+		}
 	case "syntax":
 		if f, ok := e.(pgs.File); ok {
 			switch f.Syntax() {
@@ -309,6 +337,13 @@ func (c06Engine) Run(raw json.RawMessage) (interface{}, error) {
 	for _, en := range allEntities(b) {
 		byRef[en.ref.key()] = en.e
 	}
+	// listings handed out earlier are kept (read-only) and looked at again after every later call:
+	// a result must not change under the reader's eyes because another accessor was called
+	type heldT struct {
+		raw  []pgs.Field
+		refs []ref
+	}
+	var held []heldT
 	for _, op := range w.Ops {
 		e, ok := byRef[op.R.key()]
 		if !ok {
@@ -316,6 +351,29 @@ func (c06Engine) Run(raw json.RawMessage) (interface{}, error) {
 			continue
 		}
 		res := callAccessor(b, e, op.Acc)
+		if m, ok := e.(pgs.Message); ok {
+			var raw []pgs.Field
+			switch op.Acc {
+			case "oneofFields":
+				raw = m.OneOfFields()
+			case "synthFields":
+				raw = m.SyntheticOneOfFields()
+			case "nonOneof":
+				raw = m.NonOneOfFields()
+			}
+			if raw != nil {
+				if len(held) >= 12 {
+					held = held[1:]
+				}
+				held = append(held, heldT{raw, refsOfFields(b, raw)})
+			}
+		}
+		for _, h := range held {
+			if !sameRefs(refsOfFields(b, h.raw), h.refs) {
+				res = append(res, ref{0, []int{777777}}) // an earlier result changed while only being read
+				break
+			}
+		}
 		want, known := canon[op.R.key()+op.Acc]
 		o.Ops = append(o.Ops, opRes{res, known && sameRefs(res, want)})
 	}
@@ -376,7 +434,7 @@ func (c06Engine) Gen(g *Gen) {
 		if worlds[i].Files != nil {
 			w = worlds[i]
 		} else {
-			w = genWorld(g.Rng, genOpts{maxFiles: []int{5, 9}[i%2], maxDepth: 2, locs: false})
+			w = genWorld(g.Rng, genOpts{maxFiles: []int{5, 9}[i%2], maxDepth: 2, locs: i%3 == 0})
 			w.FDSet = false
 			if len(w.Targets) == 0 {
 				w.Targets = []string{w.Files[0].Name}
@@ -449,7 +507,8 @@ func (c06Engine) Gen(g *Gen) {
 		}
 		// and at the end every file's descriptor read by content, after its syntax was asked for
 		for fi := range w.Files {
-			w.Ops = append(w.Ops, opJ{ref{fi, []int{}}, "syntax"}, opJ{ref{fi, []int{}}, "desc"})
+			w.Ops = append(w.Ops, opJ{ref{fi, []int{}}, "syntax"}, opJ{ref{fi, []int{}}, "desc"},
+				opJ{ref{fi, []int{}}, "syntaxSci"}, opJ{ref{fi, []int{}}, "sci"}, opJ{ref{fi, []int{}}, "syntaxSci"}, opJ{ref{fi, []int{}}, "packageSci"})
 		}
 		countWorld(g, w)
 		g.Emit(w)
